@@ -315,9 +315,11 @@ func (n *networkTopology) replicaMap(tokenRing *tokenRing) tokenRingReplicas {
 		replicaRing = append(replicaRing, hostTokens{th.token, replicas})
 	}
 
+	// number of datacenters of the ring that hold replicas (the keyspace may name
+	// datacenters the ring does not contain, those must not be counted)
 	dcsWithReplicas := 0
-	for _, dc := range n.dcs {
-		if dc > 0 {
+	for dc := range dcRacks {
+		if n.dcs[dc] > 0 {
 			dcsWithReplicas++
 		}
 	}
